@@ -45,6 +45,7 @@
  *              -> "new:<id>;v=<view>" | "trl:<id>" | "disc:<id>:<rst code|->" | "defer" | "none", plus
  *                 "!<code>" once an error GOAWAY was sent (ends the line), "~" after a graceful one
  *        A  SETTINGS ack from the peer -> "a";  G  graceful GOAWAY -> "g";  X<id>  stream finished -> "x"
+ *        S<id>/<status>  response of tracked stream <id> has begun (r->http_status = status) -> "s"
  *        last tokens: decoder table "T..", "cid=<n>", "nd=<n>" (discarded), "nr=<n>" (refused)
  */
 #include "first.h"
@@ -741,6 +742,14 @@ static void op_req(void) {
             request_st *r = find_stream(h2c, (uint32_t)strtoul(it + 1, NULL, 10));
             if (r) { r->http_status = 0; h2_retire_stream(r, &g_con); }
             SEP(); fputs("x", stdout);
+        }
+        else if (it[0] == 'S') {
+            /* S<id>/<status>: the response of a tracked stream has begun (a backend answered while the
+             * request body is still streamed): r->http_status != 0 when the trailers arrive */
+            char *sl = strchr(it, '/');
+            request_st *r = find_stream(h2c, (uint32_t)strtoul(it + 1, NULL, 10));
+            if (r && sl) r->http_status = atoi(sl + 1);
+            SEP(); fputs("s", stdout);
         }
         else if (it[0] == 'H' || it[0] == 'h') {
             /* H<id>/<es>/<pad>/<dep>/<frags>/<keep> */
